@@ -22,6 +22,10 @@ m = {
         "add_only": True,
     },
     "engines": [
+        {"name": "E1-codec", "path": "harness/e1_codec_test.go", "serves_properties": ["C19", "C12", "C13"],
+         "kind_free_text": "differential: bytes produced/consumed by the real converters + protobuf-go vs. the Lean byte-level codec, both directions, plus truncated inputs"},
+        {"name": "E2-fstrace", "path": "harness/fstrace.go, harness/e2_fstrace_test.go, harness/e2_statesnap_test.go, harness/e2_program.go", "serves_properties": ["C12", "C13", "C14"],
+         "kind_free_text": "fault enumeration + correspondence: storage operation scripts on the real code under strace; crash images from the observed syscalls at every syscall and byte; real recovery on every image vs. sequential spec and Lean replay; syscall programs vs. the model's"},
         {"name": "E3-handlers", "path": "harness/e3_handlers_test.go, harness/e3_vote_test.go", "serves_properties": ["C06", "C08"],
          "kind_free_text": "differential: real RPC handler over real file-backed storage vs. the Lean model function through the line-protocol driver, bounded domains of the property, plus the property's statements as implementation-side oracles"},
     ],
